@@ -253,8 +253,10 @@ deriving Inhabited
 inductive Act where
   /-- a task starts on `row`; its thread's local copy holds the first `k` shared pivots -/
   | start (row k : Nat)
-  /-- `traverse` + `choose_candidate` on the snapshot (no lock held) -/
-  | search (row : Nat)
+  /-- `traverse` + `choose_candidate` on the snapshot (no lock held).  The choice among the columns still
+  marked `Candidate` is left to the schedule (`none` = give up): the code's policy `chooseCandidate`
+  (`cmp_cols`: column weight, then index) is one admissible choice, and nothing below depends on it. -/
+  | search (row : Nat) (choice : Option Nat)
   /-- the critical section under the write lock -/
   | validate (row : Nat)
 deriving Repr, DecidableEq
@@ -276,15 +278,18 @@ def step (s : Str) (st : State) : Act → Res (State × Outcome)
       let w ← Worker.init s (st.S.take k) i
       ok ({ st with todo := st.todo.erase i, ws := w :: st.ws }, .started k)
     else err
-  | .search i =>
+  | .search i choice =>
     match findWorker st.ws i with
     | none => err
     | some w =>
       if w.chosen.isSome then err else do
       let w ← traverse s (st.S.take w.k) w
-      match chooseCandidate s w with
+      match choice with
       | none => ok ({ st with ws := dropWorker st.ws i }, .candidate none w.k)
-      | some j => ok ({ st with ws := { w with chosen := some j } :: dropWorker st.ws i }, .candidate (some j) w.k)
+      | some j =>
+        if w.isCandidate j then
+          ok ({ st with ws := { w with chosen := some j } :: dropWorker st.ws i }, .candidate (some j) w.k)
+        else err
   | .validate i =>
     match findWorker st.ws i with
     | none => err
@@ -312,6 +317,15 @@ def run (s : Str) : State → List Act → Res (State × List Outcome)
 def initState (s : Str) : Res State := do
   let S ← seqPhases s
   ok ⟨S, remainRows s S, []⟩
+
+/-- the code's own policy for a `search` step of row `i` in state `st` -/
+def policyChoice (s : Str) (st : State) (i : Nat) : Option Nat :=
+  match findWorker st.ws i with
+  | none => none
+  | some w =>
+    match traverse s (st.S.take w.k) w with
+    | ok w' => chooseCandidate s w'
+    | _ => none
 
 /-! ### `top_sort` and `result()` -/
 
@@ -392,5 +406,12 @@ def nodupB : List Nat → Bool
 /-- distinct rows, distinct columns, every pivot a candidate entry, triangular in the given order -/
 def checkPivots (s : Str) (L : List (Nat × Nat)) : Bool :=
   nodupB (L.map (·.1)) && nodupB (L.map (·.2)) && L.all (fun p => isCand s p.1 p.2) && checkTri s L
+
+/-- checker for a table reported by the real code after its sequential phases: the model's own `result`
+(Kahn) must succeed on it and yield a permutation of it that passes `checkPivots` -/
+def checkInit (s : Str) (S : Pivs) : Bool :=
+  match result s S (S.map (·.2)) with
+  | ok L => checkPivots s L && L.isPerm S
+  | _ => false
 
 end Yuiv.C11
